@@ -1,4 +1,5 @@
 import LyModel.Diff.Apply
+import LyModel.Generated.Diff13
 /-!
 # Model of `src/diff.c`: `lyd_diff_reverse_all` (reverse) — C13
 
@@ -15,8 +16,10 @@ import LyModel.Diff.Apply
   `position` ↔ `orig-position` (`revMeta`); anything else is `LY_EINT`;
 * `none`: leaf / leaf-list — `revDefault`; inner nodes — nothing.
 
-The user-ordered part has the two defects of finding F15 (the moves keep their forward order; a reversed `delete`
-has no anchor) — they are in the model exactly as in the code.
+The user-ordered part of the pinned code (`reversePinned`) has the defects of finding F15 (the moves keep their forward order; a
+reversed `delete` has no anchor; position metadata merely switched) — they are in the model exactly as in the code.  The repair
+`fixes/F15.diff` (second pass `lyd_diff_reverse_userord_r`, `lyd_diff_reverse_position`) is modelled by `reverseRepaired` /
+`revPosition`; `reverse` follows `Generated.Diff13.reverseUserordRepaired`, which tools/extractors/diff13.py reads off the source.
 
 Not modelled: the default flag of non-presence containers in the result (`lyd_change_term` inside `revValue` clears it
 on the ancestors although the leaf's own flags are restored afterwards; `lyd_dup_r` re-derives it).  `lyd_diff_apply_all`
@@ -112,15 +115,30 @@ def revMeta (n : DNode) (name1 name2 : String) : Except DiffErr DNode :=
     if v1 == v2 then .error .enot else .ok (n.setMetas (setMetaVal name2 v1 (setMetaVal name1 v2 n.metas)))
   | _, _ => .error .einval
 
+/-- `lyd_diff_reverse_position(node, mod)` (part of the repair of F15, (c)): `orig-position` = number of instances before the
+moved one, `position` = the instance to insert it after, counted with the moved one still in its old place (`""` = 0) -/
+def revPosition (n : DNode) : Except DiffErr DNode :=
+  match getMeta n "orig-position", getMeta n "position" with
+  | some o, some p =>
+    let cur := if atoiB p ≤ atoiB o then atoiB p else atoiB p - 1
+    let np := if atoiB o > cur then atoiB o + 1 else atoiB o
+    let str := fun (k : Nat) => if k == 0 then [] else bs (toString k)
+    .ok (n.setMetas (setMetaVal "position" (str np) (setMetaVal "orig-position" (str cur) n.metas)))
+  | _, _ => .error .einval
+
+/-- the position metadata of a moved instance: switched on the pinned tree, `revPosition` with the repair -/
+def revPos (n : DNode) : Except DiffErr DNode :=
+  if Generated.Diff13.reverseUserordRepaired then revPosition n else revMeta n "orig-position" "position"
+
 /-- the node's own part of one `LYD_TREE_DFS` step for operation `replace` -/
 def revReplace (S : Schema) (n : DNode) : Except DiffErr DNode :=
   match S.kind? n.sid with
   | some .leaf => (revValue n).bind revDefault
   | some .leaflist =>
     (revDefault n).bind fun n1 =>
-      if S.isDupInst n.sid then revMeta n1 "orig-position" "position" else revMeta n1 "orig-value" "value"
+      if S.isDupInst n.sid then revPos n1 else revMeta n1 "orig-value" "value"
   | some .list =>
-    if S.isDupInst n.sid then revMeta n "orig-position" "position" else revMeta n "orig-key" "key"
+    if S.isDupInst n.sid then revPos n else revMeta n "orig-key" "key"
   | _ => .error .eint
 
 /-- … for operation `none` -/
@@ -166,7 +184,126 @@ def revL (S : Schema) (inh : Option Op) : List DNode → Except DiffErr (List DN
       | .ok ns' => .ok (n' :: ns')
 end
 
-/-- `lyd_diff_reverse_all(src_diff, &diff)` -/
-def reverse (S : Schema) (d : List DNode) : Except DiffErr (List DNode) := revL S none (revDupL d)
+/-- the DFS loop of `lyd_diff_reverse_all` over the duplicated diff — all of `lyd_diff_reverse_all` on the pinned tree -/
+def reversePinned (S : Schema) (d : List DNode) : Except DiffErr (List DNode) := revL S none (revDupL d)
+
+/-! ## the repair of finding F15 (a), (b): `lyd_diff_reverse_userord_r`  ((c): `revPosition` above)
+
+Present in `src/diff.c` iff `Generated.Diff13.reverseUserordRepaired` (tools/extractors/diff13.py).  After the DFS loop a second
+pass over the reversed diff (siblings whose operation is `none` / `replace` recursively; `create` / `delete` subtrees are not
+entered): a user-ordered node whose operation is now `create` gets its anchor `orig-key` / `orig-value` / `orig-position` renamed
+to `key` / `value` / `position` (`uoRenameAnchor`: new metadata appended, old one freed), one whose operation is now `delete` the
+other way round; the user-ordered descendants of a subtree to create get their anchors (`nestedAll`, the same
+`lyd_diff_add_create_nested_userord` loop as in `lyd_diff_add`), those of a subtree to delete lose them (`uoDelNestedL`); finally
+every maximal run of sibling instances of one user-ordered schema node is put in reverse order (`revRuns`).
+Modelling shortcut: when the reversed diff has no user-ordered node at all (`uoFreeL`) the pass is not run — in the C it changes
+nothing then (it touches user-ordered nodes only), and its `lyd_diff_get_op` cannot fail where the one of the DFS loop did not
+unless a node carries two `yang:operation` metadata, which no libyang function produces. -/
+
+mutual
+/-- the diff touches no user-ordered node (at any depth, inside created / deleted subtrees as well) -/
+def noUserOrdN (S : Schema) : DNode → Bool
+  | .inner s _ _ ks => !S.isUserOrd s && noUserOrdL S ks
+  | .term s _ _ _ => !S.isUserOrd s
+def noUserOrdL (S : Schema) : List DNode → Bool
+  | [] => true
+  | x :: xs => noUserOrdN S x && noUserOrdL S xs
+end
+
+mutual
+/-- no user-ordered node outside list keys (`lyd_diff_reverse_all` skips the keys; in a compiled schema a key is a leaf, so on
+every real diff this is `noUserOrdN`) -/
+def uoFreeN (S : Schema) : DNode → Bool
+  | .inner s _ _ ks => S.isKey s || (!S.isUserOrd s && uoFreeL S ks)
+  | .term s _ _ _ => S.isKey s || !S.isUserOrd s
+def uoFreeL (S : Schema) : List DNode → Bool
+  | [] => true
+  | x :: xs => uoFreeN S x && uoFreeL S xs
+end
+
+/-- `lyd_diff_userord_meta_name(schema, orig)` -/
+def uoMetaName (S : Schema) (sid : Nat) (orig : Bool) : String :=
+  if S.isDupInst sid then (if orig then "orig-position" else "position")
+  else if S.isKind sid .list then (if orig then "orig-key" else "key")
+  else (if orig then "orig-value" else "value")
+
+/-- `lyd_diff_reverse_userord_anchor(node, mod, to_orig)` -/
+def uoRenameAnchor (S : Schema) (n : DNode) (toOrig : Bool) : Except DiffErr DNode :=
+  match getMeta n (uoMetaName S n.sid (!toOrig)) with
+  | none => .error .einval
+  | some v => .ok (n.setMetas (eraseMeta (uoMetaName S n.sid (!toOrig)) n.metas ++ [(uoMetaName S n.sid toOrig, v)]))
+
+mutual
+/-- the anchor metadata of the user-ordered nodes of a subtree to delete is removed (`lyd_diff_del_meta`) -/
+def uoDelNested (S : Schema) : DNode → DNode
+  | .inner s f m ks => .inner s f (if S.isUserOrd s then eraseMeta (uoMetaName S s false) m else m) (uoDelNestedL S ks)
+  | .term s f m v => .term s f (if S.isUserOrd s then eraseMeta (uoMetaName S s false) m else m) v
+def uoDelNestedL (S : Schema) : List DNode → List DNode
+  | [] => []
+  | n :: ns => uoDelNested S n :: uoDelNestedL S ns
+end
+
+/-- a node whose operation is now `create` (`isCreate`) or `delete` -/
+def uoFixCD (S : Schema) (n : DNode) (isCreate : Bool) : Except DiffErr DNode :=
+  match (if S.isUserOrd n.sid then uoRenameAnchor S n (!isCreate) else .ok n) with
+  | .error e => .error e
+  | .ok n1 => .ok (if isCreate then n1.setKids (nestedAll S (n1.height + 1) n1.kids) else n1.setKids (uoDelNestedL S n1.kids))
+
+/-- the last loop of `lyd_diff_reverse_userord_r`: every run of sibling instances of one user-ordered schema node in reverse
+order; `run` = the instances of the current run seen so far, last one first -/
+def revRunsGo (S : Schema) : List DNode → List DNode → List DNode
+  | run, [] => run
+  | [], x :: xs => revRunsGo S [x] xs
+  | r :: run, x :: xs =>
+    if S.isUserOrd x.sid && r.sid == x.sid then revRunsGo S (x :: r :: run) xs else r :: run ++ revRunsGo S [x] xs
+
+def revRuns (S : Schema) (l : List DNode) : List DNode := revRunsGo S [] l
+
+mutual
+/-- one sibling of the first loop of `lyd_diff_reverse_userord_r`; `inh` = the operation inherited from the ancestors -/
+def uoFixNode (S : Schema) (inh : Option Op) : DNode → Except DiffErr DNode
+  | .inner s f m ks =>
+    if S.isKey s then .ok (.inner s f m ks) else
+    match effOp (.inner s f m ks) inh with
+    | none => .error .eint
+    | some .create => uoFixCD S (.inner s f m ks) true
+    | some .delete => uoFixCD S (.inner s f m ks) false
+    | some _ =>
+      match uoFixL S (childInhOf (.inner s f m ks) inh) ks with
+      | .error e => .error e
+      | .ok ks' => .ok (.inner s f m (revRuns S ks'))
+  | .term s f m v =>
+    if S.isKey s then .ok (.term s f m v) else
+    match effOp (.term s f m v) inh with
+    | none => .error .eint
+    | some .create => uoFixCD S (.term s f m v) true
+    | some .delete => uoFixCD S (.term s f m v) false
+    | some _ => .ok (.term s f m v)
+def uoFixL (S : Schema) (inh : Option Op) : List DNode → Except DiffErr (List DNode)
+  | [] => .ok []
+  | n :: ns =>
+    match uoFixNode S inh n with
+    | .error e => .error e
+    | .ok n' =>
+      match uoFixL S inh ns with
+      | .error e => .error e
+      | .ok ns' => .ok (n' :: ns')
+end
+
+/-- `lyd_diff_reverse_userord_r(diff, mod)` on the top-level siblings -/
+def uoFixTop (S : Schema) (r : List DNode) : Except DiffErr (List DNode) :=
+  match uoFixL S none r with
+  | .error e => .error e
+  | .ok r' => .ok (revRuns S r')
+
+/-- `lyd_diff_reverse_all` with the repair of F15 (a), (b) -/
+def reverseRepaired (S : Schema) (d : List DNode) : Except DiffErr (List DNode) :=
+  match revL S none (revDupL d) with
+  | .error e => .error e
+  | .ok r => if uoFreeL S r then .ok r else uoFixTop S r
+
+/-- `lyd_diff_reverse_all(src_diff, &diff)`: follows the source (`Generated.Diff13.reverseUserordRepaired`) -/
+def reverse (S : Schema) (d : List DNode) : Except DiffErr (List DNode) :=
+  if Generated.Diff13.reverseUserordRepaired then reverseRepaired S d else reversePinned S d
 
 end LyModel.Diff
